@@ -193,7 +193,7 @@ func cmdCheck(args []string) int {
 			twins = append(twins, &tw)
 		}
 	}
-	timeout := 10
+	timeout := 20
 	if *tier == "thorough" {
 		timeout = 120
 	}
